@@ -629,8 +629,13 @@ func ruleR04_5(p *Program, r *Report) {
 				continue
 			}
 			ok := allowed[f.Name()]
-			if f.Name() == "Reset" && fn.Name() != "Reset" {
-				ok = false
+			if f.Name() == "Reset" {
+				// re-targeting the buffer belongs to Reset and the constructors (or a private helper only they reach)
+				for _, e := range p.apiEntries(fn) {
+					if e.Name() != "Reset" && !strings.HasPrefix(e.Name(), "New") {
+						ok = false
+					}
+				}
 			}
 			r.Check(ok, "R04.5", shortFn(fn)+"|"+lab.get("bufio."+f.Name()), p.InstrPos(c), "the inflater takes input only through Peek/Buffered/Discard, so unconsumed bytes stay in the source", "(*bufio.Reader)."+f.Name()+" consumes input destructively")
 		}
